@@ -263,6 +263,29 @@ async def feed_history(loop: vloop.VirtualLoop, ctx, trial: int) -> None:
     await gwy.stop()
 
 
+def saved_state_agrees(ctx, gwy, meta: dict[str, Any]) -> None:
+    """What would be saved now is what the gateway holds: each line of the saved state is the frame of the live
+    packet with that stamp (the fault-log view after a restart is rebuilt from these lines)."""
+    try:
+        _, pkts = gwy.get_state(include_expired=True)
+    except Exception:  # noqa: BLE001  (C13's subject)
+        return
+    live = [m for d in gwy.devices for m in d._msg_db]
+    for system in gwy.systems:
+        live += list(system._msgs.values()) + [m for z in system.zones for m in z._msgs.values()]
+    for m in live:
+        line = pkts.get(m._pkt.dtm.isoformat(timespec="microseconds"))
+        if line is None or m.code != "0418":
+            continue
+        ctx.count("saved.fault_log_lines_compared")
+        if not line.startswith("... " + str(m._pkt)):
+            ctx.violate(
+                "C19|saved-state|line-is-not-the-held-packet",
+                "the saved state holds another frame than the fault-log packet the gateway holds under that stamp (a restart files the entry elsewhere)",
+                {"saved": line, "held": str(m._pkt), **meta},
+            )
+
+
 async def real_get_faultlog(loop: vloop.VirtualLoop, ctx, trial: int) -> None:
     """The real get_faultlog() of a port gateway against the simulated controller."""
     rng = ctx.rng
@@ -317,6 +340,7 @@ async def real_get_faultlog(loop: vloop.VirtualLoop, ctx, trial: int) -> None:
             stamps = [result[i].timestamp for i in sorted(result)]
             if any(a <= b for a, b in zip(stamps, stamps[1:])):
                 ctx.violate("C19|get_faultlog|not-newest-first", "get_faultlog() returned a view that is not strictly newest-first", {"view": stamps})
+        saved_state_agrees(ctx, gwy, {"start": start, "limit": limit, "log_depth": len(sim.entries)})
         for u in loop.unhandled:
             ctx.info.setdefault("loop_unhandled", []).append(f"{u['type']}@{u['where']}")
         await harness.stop_gateway(gwy)
@@ -441,6 +465,7 @@ async def real_sequence(loop: vloop.VirtualLoop, ctx, trial: int) -> None:
                 on_answer.clear()
                 await vloop.drain(loop)
                 ctx.count("sequence.gets")
+                saved_state_agrees(ctx, gwy, {"history": history[-8:], "episode": ep})
                 view = well_formed(tcs, f"after {kind}")
                 if kind == "get" and view is not None:
                     ctx.count("sequence.clean_gets")
